@@ -409,6 +409,7 @@ var c14Operands = []interface{}{true, int(-42), int8(7), uint16(300), uint64(1 <
 	complex64(complex(0.1, -0.3)), complex128(complex(0.1, math.Inf(1))), complex64(0),
 	"", "a" + mStart + "b" + mEnd, "l1\nl2", "\xe2\x80", rune(0x10ffff), rune(-1), []byte{}, []byte(nil), [3]byte{1, 2, 3},
 	namedF32(0.1), namedF64(0.1), namedC64(complex(0.1, 2)), namedBool(true), namedU8(200), namedBS("nb"), namedInt(0), namedStr(""),
+	(*fmtT)(nil), (*strT)(nil), (*errT)(nil), (*goT)(nil), (*ptrStrT)(nil), &fmtT{"pf"}, []interface{}{(*fmtT)(nil), (*strT)(nil)},
 	(*int)(nil), []interface{}{float32(0.1), nil, "s"}, [2]float32{0.1, 0.2}, map[float32]bool{0.1: true}, struct{ F float32 }{0.1}, &struct{ F float32 }{0.1},
 }
 
